@@ -190,6 +190,8 @@ func orderProgram(r *mon.Rand) (src string, tags []string) {
 		"try(func() { return {{}, [], 1} }, func(e) { print(e) })", "print(type(m), type(s), m == m.copy(), s == set(list(s)))", "print(reversed(keys(m)))", "delete(m, keys(m)[0]); print(m)",
 		"print(math.sum(m.values()))", "print(strings.join(keys(m), \",\"))", "print(coalesce(nil, m, s))", "print(chunk(keys(m), 2))", "print({\"n\": m, \"l\": [s]})", "print(errors.new(string(m)))",
 		"g := func(k) { return m[k] }; print(keys(m).map(g))", "print(keys(m).filter(func(k) { return k > \"a\" }))", "each := []; keys(m).each(func(k) { each.append(k) }); print(each)",
+		"print(sorted(m, func(a, b) { return len(a) < len(b) }))", "print(sorted(s, func(a, b) { tick(a); return false }))", "print(sorted(m, func(a, b) { tick(b); return m[a] < m[b] }))",
+		"print(sorted(keys(m), func(a, b) { return false }), sorted(s, func(a, b) { return type(a) < type(b) }))", "print(sorted(m.values(), func(a, b) { return a % 3 < b % 3 }))",
 		"print(s.union(set(m.values())))", "print(sorted(m.values()))", "print(string(keys(m)), sprintf(\"%v %v\", m, s))", "print(m.get(\"a\", 0), m.pop(\"b\", -1), m.setdefault(\"q\", tick(200)), m)",
 	}
 	n := 3 + r.Intn(8)
